@@ -130,11 +130,20 @@ async def probe(log, name, coro, **info):
 class Sub:
     """An async subscriber that records its invocations."""
 
-    def __init__(self, log, name, raises=False):
+    def __init__(self, log, name, raises=False, hashv=None):
         self.log = log
         self.name = name
         self.raises = raises
         self.calls = []
+        # the client keeps subscribers in sets: the order in which they are called is the
+        # set's iteration order, i.e. a function of the hashes. A workload can choose it.
+        self._hashv = hashv
+
+    def __hash__(self):
+        return object.__hash__(self) if self._hashv is None else self._hashv
+
+    def __eq__(self, other):
+        return self is other
 
     async def __call__(self, *a, **kw):
         self.calls.append((a, kw))
